@@ -75,6 +75,11 @@ CHECKS = {
    text="Client.Do with OnInput is executed for every callback history of up to 2 (quick)/3 (thorough) rounds over {append a row, reset+append, overwrite row 0 in place, reset to nothing} x final result {io.EOF, wrapped io.EOF, other error}, initial rows 0..2, a zero-copy column (ColUInt64) or ColStr, with and without framing; all cells symbolic. The client-to-server bytes are asserted equal to query + terminator + one reference-encoded block per round holding the shadow model's contents when the round began + exactly one terminator; bytes delivered before a callback ran must be a prefix of the final stream (no rewriting through aliased memory); a callback error fails Do and no Data block follows the failing round.",
    ref="DESIGN.md §4 C09",
    note="bounds: <=2/3 rounds, <=2 initial rows, one input column, revision 54460, method None framing; the connection copies at Write time (exact aliasing model); LZ4/ZSTD streams and write segmentation by the kernel are outside"),
+ "C03": dict(
+   level="model_checking",
+   text="Client.Do is executed against scripts of up to 2 (quick)/3 (thorough) server packets drawn from {Data, Totals (0/1 rows or the empty end marker), Progress, Profile, TableColumns, Log, ProfileEvents, Exception (chain depth 1..2), EndOfStream} with all field values, cells and exception codes symbolic, with and without OnResult and with a failing callback at a chosen invocation. Assertions: the callback trace (results with the bound column's contents at callback time, progress, profile, logs, profile events) equals the projection of the script in order; Do returns nil iff the script ended with EndOfStream and no callback failed (incl. the no-OnResult single-block rule); an exception is recovered by errors.As with code/name/message/stack/chain and every code of the chain matches errors.Is.",
+   ref="DESIGN.md §4 C03",
+   note="bounds: <=2/3 packets, one result column (UInt64), 1-row telemetry blocks, integer fields 7 bit, revisions {54460, 54453, 54419, 51902} in quick (one symbolic revision >= 50264 in thorough), compression off, instrumentation off; non-preemptive schedules only"),
 }
 
 NA = {
